@@ -229,6 +229,26 @@ example : submitObjectPut st1 alpha (some meta1) [1] (some [some [sg 1, sg 2, sg
 example : submitObjectPut st1 alpha (some meta1) [1] (some [some [sg 1, sg 1, sg 1], some [sg 4]]) = none := by decide
 example : submitObjectPut st1 alpha (some { meta1 with validUntil := some 10 }) [1]
     (some [some [sg 1, sg 2, sg 3], some [sg 4]]) = none := by decide
+/-- A vector may list one key at several positions (a node submitted again in a second batch; `addNextEpochNodes`
+does not de-duplicate). The model's roster is that list with its repeats, `counted` holds KEYS, and the `K` of
+`signatures_sound` is a duplicate-free list of keys: a repeated key is one member. Vector 0 = [1, 2, 1, 3], vector 1 =
+[4, 1], REP 2 and 2. -/
+def hist2 : List (Env Sg × Op Sg) :=
+  [(alpha, .add cidA 0 (some [key 1, key 2])), (alpha, .add cidA 0 (some [key 1, key 3])),
+   (alpha, .add cidA 1 (some [key 4, key 1])), (alpha, .commit cidA (some [2, 2]))]
+def st2 : Store := run (initWith [cidA]) hist2
+def other (i : Nat) : Sg := (key i, 2)
+example : nodes st2 cidA 0 = some [key 1, key 2, key 1, key 3] ∧ nodes st2 cidA 1 = some [key 4, key 1] := by decide
+/-- two signatures of the one node — the same twice, a signature and its twin, two different valid ones — are one member -/
+example : verifyPlacementSignatures orc st2 cidA [1] (some [some [sg 1, sg 1], some [sg 4, sg 1]]) = some false := by decide
+example : verifyPlacementSignatures orc st2 cidA [1] (some [some [sg 1, twin 1], some [sg 4, sg 1]]) = some false := by decide
+example : verifyPlacementSignatures orc st2 cidA [1] (some [some [sg 1, other 1], some [sg 4, sg 1]]) = some false := by decide
+example : verifyPlacementSignatures orc st2 cidA [1] (some [some [sg 1, sg 3], some [sg 1, other 1]]) = some false := by decide
+/-- the node and one other member is REP 2 (the node may sign for both vectors it belongs to); repetitions are skipped -/
+example : verifyPlacementSignatures orc st2 cidA [1] (some [some [sg 1, sg 3], some [sg 4, sg 1]]) = some true := by decide
+example : verifyPlacementSignatures orc st2 cidA [1] (some [some [sg 1, twin 1, sg 1, sg 2], some [sg 1, sg 4]]) = some true := by decide
+example : submitObjectPut st2 alpha (some meta1) [1] (some [some [sg 1, twin 1], some [sg 4, sg 1]]) = none := by decide
+
 end examples
 
 end NeoFS.Props.C14
